@@ -103,6 +103,9 @@ def gen_operand(rng, live, ncolors, depth=0, allow_boom=False):
         # a text that another part of the package produced (a line of a rendered table, of a pretty-printed value):
         # not assembled with CHText's own operations, its pieces need not be merged or non-empty
         return {"fl": rng.randrange(16)}
+    if rng.random() < 0.03:
+        # ... or the result object of a rendering itself ("can be used as a usual CHText object")
+        return {"res": rng.randrange(4)}
     r = rng.random()
     if r < 0.30:
         return {"s": gen_str(rng)}
@@ -339,6 +342,7 @@ class World:
         self.sub_cls = type("UserText", (color.CHText,), {"__doc__": "a user's subclass that changes nothing"})
         self.sub_cls2 = type("OtherUserText", (color.CHText,), {"__doc__": "another module's subclass, also changing nothing"})
         self._foreign = None
+        self._results = None
         self.real = {}      # handle -> real object
         self.model = {}     # handle -> MObj (shared between aliases)
         self.stats = {"ops_done": 0, "handles_checked": 0, "alias_ops": 0, "inplace_on_shared": 0, "faults_fired": 0,
@@ -366,7 +370,26 @@ class World:
                             self.fmt_of_style.setdefault(st, piece.clone)
         return self._foreign[i % len(self._foreign)]
 
+    def foreign_result(self, i):
+        if self._results is None:
+            from ak.ppobj import PPTable, PrettyPrinter
+            conf = self.color.ColorsConfig({"TABLE": {"BORDER": "CYAN"}, "RECORD.NUMBER": "YELLOW:bold", "NAME": "GREEN"})
+            self.foreign_text(0)
+            self._results = [PrettyPrinter()([1, "a"], colors_conf=conf),
+                             PrettyPrinter()({"k": None}, colors_conf=conf),
+                             PrettyPrinter()("plain", no_color=True),
+                             PPTable([(1, "a")], fields=["id", "name"], footer="").ch_text(colors_conf=conf)]
+            for r in self._results:
+                for piece in r.get_ch_text().chunks:
+                    if piece.text:
+                        st = sgr.parse_cells(str(piece))[0][1]
+                        if st != sgr.PLAIN:
+                            self.fmt_of_style.setdefault(st, piece.clone)
+        return self._results[i % len(self._results)]
+
     def real_operand(self, o):
+        if "res" in o:
+            return self.foreign_result(o["res"])
         if "fl" in o:
             return self.foreign_text(o["fl"])
         if "r" in o:
@@ -389,7 +412,9 @@ class World:
 
     def model_operand(self, o, out):
         """appends cells to `out`; raises BoomHit(cells appended so far) at an injected fault"""
-        if "fl" in o:
+        if "res" in o:
+            out.extend(sgr.parse_cells(str(self.foreign_result(o["res"]))))
+        elif "fl" in o:
             out.extend(sgr.parse_cells(str(self.foreign_text(o["fl"]))))
         elif "r" in o:
             out.extend((ch, sgr.PLAIN) for ch in str(self.fmts[o["r"] % len(self.fmts)](o["s"])))
